@@ -60,6 +60,7 @@ type funcContract struct {
 	setupOnly     string
 	lockHandoff   string
 	waitsHolding  string
+	absentUnused  map[string]string
 	assumeAllCalleeReq bool
 	sweep         bool // synthetic contract of the lock-discipline sweep
 	ghostAt      []ghostUpdate
@@ -436,6 +437,18 @@ func (cs *contractSet) loadFile(path, pkgPath string) error {
 				// the preconditions of every callee under contract are data invariants this function does not
 				// track: assumed at each call and listed in the evidence (the function's own obligations stand)
 				cur.assumeAllCalleeReq = true
+			case "absent_entry_unused":
+				// absent_entry_unused Type.field <reason>: what this function looks up in that guarded map after it
+				// dropped the lock may be missing, but is then not used (an assumption about the code in between,
+				// listed; to be backed by a schedule-point witness)
+				f := strings.SplitN(rest, " ", 2)
+				if len(f) < 2 || !strings.Contains(f[0], ".") {
+					return fail(fmt.Errorf("absent_entry_unused needs: Type.field reason"))
+				}
+				if cur.absentUnused == nil {
+					cur.absentUnused = map[string]string{}
+				}
+				cur.absentUnused[f[0]] = f[1]
 			case "waits_holding":
 				// waits_holding <reason>: WaitGroup.Wait under a lock the waited-for goroutines never take
 				cur.waitsHolding = rest
